@@ -420,7 +420,8 @@ func (t *FnTrans) builtin(x *ssa.Call, bi *ssa.Builtin, c *ssa.CallCommon, args 
 		if ok {
 			m := args[0]
 			k := t.materialize(args[1], mt.Key())
-			if comp, srt, _, ok := t.mapComps(mt); ok && m.K == VScalar && k.K == VScalar {
+			if comp, srt, dks, ok := t.mapComps(mt); ok && m.K == VScalar && k.K == VScalar {
+				t.noteKeyTerm(dks, k.S)
 				arr := t.heapGet(st, comp, srt)
 				t.heapSet(st, comp, srt, sx("store", arr, m.S, sx("store", sx("select", arr, m.S), k.S, "false")))
 			}
@@ -444,6 +445,16 @@ func (t *FnTrans) allocRef(hint string) string {
 	}
 	name := t.declare(t.fresh(hint), "Int")
 	facts := []string{sx(">", name, "ALLOC0")}
+	// moving allocation frontier (ghost component G.ALLOCF): every object this
+	// function allocates lies above everything allocated before it, so an
+	// invariant `allocated(x)` (x is at or below the frontier) separates the
+	// objects of earlier loop iterations from the one allocated now
+	if t.curSt != nil && !t.phase2 {
+		fsrt := arraySort("Int", "Int")
+		fr := t.heapGet(t.curSt, "G.ALLOCF", fsrt)
+		facts = append(facts, sx(">", name, sx("select", fr, "0")), sx(">=", sx("select", fr, "0"), "ALLOC0"))
+		t.heapSet(t.curSt, "G.ALLOCF", fsrt, sx("store", fr, "0", name))
+	}
 	for _, o := range t.localRefs {
 		facts = append(facts, not(eq(name, o)))
 	}
@@ -1235,7 +1246,7 @@ func (t *FnTrans) siteHook(kind string, in ssa.Instruction, b *ssa.BasicBlock, i
 				continue
 			}
 			ce, ok := tex.(*ast.CallExpr)
-			if !ok || len(ce.Args) != 2 {
+			if !ok || (len(ce.Args) != 2 && len(ce.Args) != 3) {
 				continue
 			}
 			func() {
@@ -1255,6 +1266,21 @@ func (t *FnTrans) siteHook(kind string, in ssa.Instruction, b *ssa.BasicBlock, i
 				o := env.eval(ce.Args[0])
 				if o.K == VConst {
 					o = scalar(nil, "0")
+				}
+				if len(ce.Args) == 3 {
+					// ghostset ghostat(obj, index, "name") = expr : one element of a ghost sequence
+					ix, okIdx := t.toIdx(env.eval(ce.Args[1]))
+					lit3, okLit := ce.Args[2].(*ast.BasicLit)
+					if !okIdx || !okLit || o.K != VScalar {
+						panic(&exprError{"ghostset ghostat(obj, index, \"name\") expects an object, an integer index and a string literal"})
+					}
+					gname := strings.Trim(lit3.Value, "\"")
+					gt := t.W.ghostType(gname)
+					v := t.materialize(env.eval(g.Value.Expr), gt)
+					srt := arraySort("Int", arraySort(t.mode.idxSort(), t.mode.scalarSort(gt)))
+					arr := t.heapGet(st, "GA."+gname, srt)
+					t.heapSet(st, "GA."+gname, srt, sx("store", arr, o.S, sx("store", sx("select", arr, o.S), ix, v.S)))
+					return
 				}
 				lit := ce.Args[1].(*ast.BasicLit)
 				gname := strings.Trim(lit.Value, "\"")
